@@ -110,8 +110,10 @@ def h_vector(ctx):
     mindist = ctx.real("mindist")
     ctx.assume(mindist > 0)
     nu = ctx.real("poisson", -1, 1)
-    vsp = vd.VectorSpline2D(poisson=nu, mindist=mindist, force_coords=(fe, fn))
-    jac = vsp.jacobian((e, n), (fe, fn))
+    fsh = tuple(cfg["fshape"]) if cfg.get("fshape") else (nf,)
+    # force locations may be handed over as arrays of any shape (here 1-D or 2-D), like every other coordinate
+    vsp = vd.VectorSpline2D(poisson=nu, mindist=mindist, force_coords=(fe.reshape(fsh), fn.reshape(fsh)))
+    jac = vsp.jacobian((e, n), (fe.reshape(fsh), fn.reshape(fsh)))
     ctx.claim("jacobian has shape (2 n_obs, 2 n_forces)", np.shape(jac) == (2 * nobs, 2 * nf))
     for i in range(nobs):
         for j in range(nf):
@@ -268,8 +270,8 @@ HARNESSES = [
     Harness(
         "vector_spline_jacobian_predict",
         h_vector,
-        lambda tier, seed: [{"nobs": 1, "nforce": 1, "coincident": True}] + ([{"nobs": 2, "nforce": 2}, {"nobs": 1, "nforce": 2, "coincident": True}] if tier == "thorough" else [{"nobs": 2, "nforce": 1}]),
-        bounds="1-2 observation points x 1-2 force points, symbolic coordinates, forces, Poisson ratio in [-1, 1] and mindist > 0 (coincident points included)",
+        lambda tier, seed: [{"nobs": 1, "nforce": 1, "coincident": True}] + ([{"nobs": 2, "nforce": 2}, {"nobs": 1, "nforce": 2, "coincident": True}, {"nobs": 2, "nforce": 2, "fshape": (2, 1)}] if tier == "thorough" else [{"nobs": 2, "nforce": 1}, {"nobs": 1, "nforce": 2, "fshape": (1, 2)}]),
+        bounds="1-2 observation points x 1-2 force points (force locations as 1-D or 2-D arrays), symbolic coordinates, forces, Poisson ratio in [-1, 1] and mindist > 0 (coincident points included)",
         engine={"oneshot": True, "timeout_ms": 30000, "keyed_sqrt": True},
         timeout_s=600,
     ),
